@@ -37,6 +37,9 @@ for cls, _prop in (('RawAccessPoint', 'C09'), ('LogicalDataLink', 'C09'), ('Data
                       ('O-term-state.s0', closed('s0')), ('O-term-state.s1', closed('s1'))] +
                      ([('O-term-state.dlc', 's0.acks_ready.notified >= 1 and s0.send_token.notified >= 1')]
                       if cls == 'DataLinkConnection' else []),
+             # shutdown runs in the link thread (terminate()): a wait() without timeout there - e.g. the DISC/DM
+             # handshake of close() on a socket that is still bound - would never be woken
+             hooks={'on_wait': lambda ex, cond, timeout: no_untimed_wait(ex, cond, timeout)},
              raises={})
 
 
